@@ -37,6 +37,7 @@ type loopSpec struct {
 	decrSSA  *ssa.Function
 	oldFns   []string
 	oldSSA   map[string]*ssa.Function
+	stale    bool
 	paramsOf map[string][]string // generated fn -> variable names
 }
 
